@@ -7,7 +7,8 @@ CFG = {
     "theory_files": ["theories/Base/Bytes.v", "theories/Base/BytesProofs.v", "theories/Formats/Stl.v",
                      "theories/Formats/StlProofs.v", "theories/Formats/Pts.v", "theories/Formats/PtsProofs.v",
                      "theories/Formats/Splat.v", "theories/Formats/Spz.v", "theories/Formats/PlyRead.v",
-                     "theories/Formats/PrefixProofs.v"],
+                     "theories/Formats/PrefixProofs.v", "theories/Formats/PrefixCost.v",
+                     "theories/Formats/PrefixSurplus.v"],
     "level_text": "Coq theorems, one per format, for every file and every cut: binary STL (every strict prefix rejected), "
                   ".splat (a k-byte prefix yields exactly the k/32 splats wholly present, error iff k mod 32 <> 0), SPZ "
                   "(every strict prefix of the inflated stream rejected; gzip as a hypothesis), PLY binary and ASCII "
@@ -28,7 +29,7 @@ CFG = {
     "rule": "valid files of 8 kinds in rotation: STL; PLY ascii/le/be through polyform's writer (point clouds, "
             "triangle meshes, +-normals, +-uchar colours, +-per-face texcoord lists, +-extra scalar); PLY through an "
             "independent encoder (float/double positions, uchar rgb/rgba, int column, tri+quad faces, uchar/uint list "
-            "counts, int/uint indices, float/double texcoords, all three encodings); PTS 3/4/7 columns; .splat; SPZ "
+            "counts, int/uint indices, float/double texcoords, all three encodings; 1/3 of the ASCII ones with surplus trailing tokens on every line); PTS 3/4/7 columns; .splat; SPZ "
             "v1/v2 x SH degree 0-3 x gzip stored/default/fast via an independent encoder.  EVERY byte cut for binary "
             "files and for PLY headers, every token boundary for ASCII bodies (stride sampling only above 1200 / 8192 "
             "cuts, last 64 always kept); plus a fixed 'hostile count' stream (short file announcing 2^31 records) "
